@@ -91,6 +91,9 @@ class Script:
         m[1], m[2] = r.signal_name, (r.payload if isinstance(r.payload, int) else 0)
     elif op == "scribble":
       self.mark(["scribble", ef[1], 0]); hsm.scribble(ef[1])
+    elif op == "cs":
+      self.mark(["cs", "", 0])
+      hsm.current_state()          # a handler that asks the chart where it is (reflection) while the step is under way
     elif op == "raise":
       self.mark(["raise", "", 0])
       raise ChartFault("handler failed on purpose")
@@ -153,19 +156,58 @@ class Script:
     return self._fall(hsm, i, rs)
 
   # -- build the state functions (dynamic build) -----------------------------
+  def name_of(self, i):
+    names = self.c.get("names")
+    return names[i - 1] if names else "s%d" % i
+
   def build_dyn(self, spied):
     from miros.hsm import spy_on
     me = self
+    if self.c.get("hstyle", "fn") == "bound":
+      return self.build_bound(spied)
 
     def make(i):
       def handler(chart, e):
         return me.answer(chart, i, e)
-      handler.__name__ = "s%d" % i
-      handler.__qualname__ = "s%d" % i
+      handler.__name__ = me.name_of(i)
+      handler.__qualname__ = me.name_of(i)
       return handler
     for i in range(1, self.n + 1):
       self.raw[i] = make(i)
       self.fn[i] = spy_on(self.raw[i]) if spied else self.raw[i]
+
+  def build_bound(self, spied):
+    """state handlers that are methods of a helper object (signature (self, chart, e)): every mention of a state
+    (`obj.s3`) is a NEW bound-method object, equal to but not identical with the one the processor holds"""
+    from miros.hsm import spy_on
+    me = self
+
+    class Holder:
+      pass
+
+    def make(i):
+      def handler(self_, chart, e):
+        return me.answer(chart, i, e)
+      handler.__name__ = me.name_of(i)
+      handler.__qualname__ = "Holder." + me.name_of(i)
+      return handler
+    for i in range(1, self.n + 1):
+      setattr(Holder, "h%d" % i, make(i))
+    holder = Holder()
+
+    class Fresh(dict):
+      def __getitem__(self, i):
+        return getattr(holder, "h%d" % i)
+
+      def get(self, i, default=None):
+        return getattr(holder, "h%d" % i, default)
+    if spied:
+      for i in range(1, self.n + 1):
+        self.raw[i] = getattr(holder, "h%d" % i)
+        self.fn[i] = spy_on(self.raw[i])
+    else:
+      self.fn = Fresh()
+      self.raw = Fresh()
 
   # -- static builds (C17): hand-written text, template+registry, Factory, exec'd to_code text ------
   def registered(self, i, sg):
@@ -208,14 +250,39 @@ class Script:
     finally:
       self.stack.pop()
 
-  def callbacks(self):
+  def callbacks(self, host=None):
+    """the registered callbacks, in the style chart['cbstyle']: plain functions, functools.partial objects, objects with
+    __call__, or (template / Factory builds only) bound methods of the chart, which the template calls as fn(e)"""
+    import functools, types
     me = self
     cbs = {}
+    style = self.c.get("cbstyle", "def")
+
+    def generic(i, sg, chart, e):
+      return me.answer_cb(chart, i, e, sg)
+
+    class CallableCb:
+      def __init__(self, i, sg):
+        self.i, self.sg = i, sg
+
+      def __call__(self, chart, e):
+        return me.answer_cb(chart, self.i, e, self.sg)
 
     def make(i, sg):
-      def cb(chart, e):
-        return me.answer_cb(chart, i, e, sg)
-      cb.__name__ = "cb_s%d_%s" % (i, sg)
+      name = "cb_s%d_%s" % (i, sg)
+      if style == "partial":
+        cb = functools.partial(generic, i, sg)
+      elif style == "object":
+        cb = CallableCb(i, sg)
+      elif style == "method" and host is not None:
+        def meth(chart, e):
+          return me.answer_cb(chart, i, e, sg)
+        meth.__name__ = name
+        return types.MethodType(meth, host)
+      else:
+        def cb(chart, e):
+          return me.answer_cb(chart, i, e, sg)
+      cb.__name__ = name
       return cb
     for i in range(1, self.n + 1):
       for sg in list(INNER3) + list(self.c["sigs"]):
@@ -227,7 +294,7 @@ class Script:
     """state_method_template + register_signal_callback + register_parent (or Factory.create/catch/nest)"""
     from miros.hsm import state_method_template
     from miros.event import signals
-    cbs = self.callbacks()
+    cbs = self.callbacks(hsm)
     if use_factory:
       bps = {i: hsm.create(state="s%d" % i) for i in range(1, self.n + 1)}
       for i in range(1, self.n + 1):
@@ -440,7 +507,7 @@ def run_chart(chart, ops):
         elif k == "complete_circuit":
           hsm.complete_circuit()
         elif k == "is_in":
-          r = hsm.is_in(script.fn[op[1]]); rec["ret"] = "T" if r else "F"
+          r = hsm.is_in(script.fn[op[1]] if op[1] else hsm.top); rec["ret"] = "T" if r else "F"
         elif k == "child_state":
           arg = op[1]
           if arg == -1:   # an enclosing state of the current state (or itself), picked by op[2]
@@ -450,7 +517,7 @@ def run_chart(chart, ops):
               ups.append(c0); c0 = chart["par"][c0 - 1]
             arg = ups[op[2] % len(ups)] if ups else 1
             rec["arg"] = arg
-          r = hsm.child_state(script.fn[arg]); rec["ret"] = str(script.index_of(r, hsm))
+          r = hsm.child_state(script.fn[arg] if arg else hsm.top); rec["ret"] = str(script.index_of(r, hsm))
         elif k == "clear_spy":
           hsm.clear_spy()
         elif k == "clear_trace":
